@@ -767,7 +767,7 @@ func (p *parser) parseSimpleSelectorSequence() (Sel, error) {
 	case '*':
 		// It's the universal selector. Just skip over it, since it doesn't affect the meaning.
 		p.i++
-		if p.i+2 < len(p.s) && p.s[p.i:p.i+2] == "|*" { // other version of universal selector
+		if p.i+2 <= len(p.s) && p.s[p.i:p.i+2] == "|*" { // other version of universal selector
 			p.i += 2
 		}
 	case '#', '.', '[', ':':
